@@ -153,8 +153,10 @@ def strat_strings():
         elif k in ("str_matches", "str_contains"):
             cs = {"kind": k, "args": {"pattern": draw(st.sampled_from(gen.PATTERNS + ["", "^$", "a|b", "\u00e9", ".*", "A", "AB", "a.b", "^b$"]))}}
             if draw(st.integers(0, 2)) == 0:  # compiled, with flags that matter for the data pool (case, newlines)
-                cs["args"]["flags"] = draw(st.sampled_from([[], ["IGNORECASE"], ["IGNORECASE"], ["DOTALL"], ["MULTILINE"],
-                                                            ["IGNORECASE", "MULTILINE"]]))
+                pat, fl = draw(st.sampled_from([("a", ["IGNORECASE"]), ("ab", ["IGNORECASE"]), ("^(a|b)+$", ["IGNORECASE"]),
+                                                ("a.b", ["DOTALL"]), ("^b$", ["MULTILINE"]), ("b$", ["MULTILINE"]),
+                                                ("A", ["IGNORECASE", "MULTILINE"]), (cs["args"]["pattern"], [])]))
+                cs["args"]["pattern"], cs["args"]["flags"] = pat, fl
         elif k == "equal_to":
             cs = {"kind": k, "args": {"value": draw(st.sampled_from(pool))}}
         else:
@@ -175,8 +177,22 @@ def strat_strings():
         col = {"name": "s", "dtype": draw(st.sampled_from(["str", "str", "string" if phys == "string" else "object"])),
                "nullable": True, "unique": False, "required": True,
                "checks": draw(st.lists(check(), min_size=1, max_size=2))}
+        if any(ch["args"].get("flags") for ch in col["checks"]):
+            # cells on which the flags decide: other case, embedded / trailing newline
+            cells = [draw(st.sampled_from(["A", "AB", "Ab", "aB", "a\nb", "b\n", "a\nB"])) if draw(st.booleans()) else c for c in cells]
         spec = {"kind": "series" if series else "dataframe", "columns": [col], "index": None, "strict": False, "ordered": False}
-        return {"spec": spec, "table": {"columns": [{"name": "s", "phys": phys, "cells": cells}], "index": None}}
+        case = {"spec": spec, "table": {"columns": [{"name": "s", "phys": phys, "cells": cells}], "index": None}}
+        if draw(st.booleans()):
+            # half of the pairs are made conforming (rows the reference rejects are taken out): a verdict only hinges on
+            # one cell when every other cell passes
+            try:
+                ref = refmodel.ref_validate(spec, case["table"])
+                bad = set(ref.bad_rows)
+                if bad and len(bad) < len(cells) and all(e.rows is not None for e in ref.errors):
+                    case["table"]["columns"][0]["cells"] = [c for i, c in enumerate(cells) if i not in bad]
+            except refmodel.Undefined:
+                pass
+        return case
     return s()
 
 
